@@ -7,6 +7,8 @@
            the parser consumed, the projection of the decoded object
      dec   an octet string (fault ft applied to the encoding, an ill-formed value's
            encoding, or seeded noise) was offered to dns.rdata.from_wire as RDATA
+     foreign the type's RDATA decoded in a class without implementation (fresh-process scenario:
+           the first lookup of a type in a process may be in any class)
      cover number of value vectors the run executed for a type
    Every expected value is recomputed here with the operators of RdataCodec.            *)
 EXTENDS RdataUniverse, VTrace
@@ -31,6 +33,9 @@ TEnc ==
            v == e.v
            decided == ~MayReject(ty, v)
        IN /\ C("GenWellFormed", WellFormed(ty, v) /\ CanEncode(ty, v, o))
+          \* an implemented (class, type) is served by its implementation, never by the RFC 3597 generic
+          \* fallback - whatever was looked up earlier in the process
+          /\ C("ImplementationUsed", ty = "UNKNOWN" \/ ~e.gen)
           /\ C("Constructs", decided => e.built = "ok")
           /\ IF e.built # "ok" THEN C("EndsAfterRefusal", l = Len(Ev(t)))
              ELSE /\ C("Encodes", e.wire # <<-1>>)
@@ -63,11 +68,23 @@ TDec ==
                   /\ C("FixedPoint", e.eq2 /\ e.reenc2 = e.reenc)
     /\ Adv
 
+\* the RDATA of the type offered in a class that has no implementation for it (RFC 3597 section 5:
+\* unknown class/type pairs are opaque): whatever decoder is used, the consumption / fixed-point
+\* clauses hold, and the generic form re-encodes the octets unchanged
+TForeign ==
+    /\ e.op = "foreign"
+    /\ C("SameVerdictBothApis", e.pres = e.res /\ e.same)
+    /\ IF e.res = "err" THEN C("FormError", e.formerr)
+       ELSE /\ C("ConsumedExactly", e.cons = Len(e.b))
+            /\ C("GenericIdentity", e.gen => e.reenc = e.b)
+            /\ C("FixedPoint", e.eq2 /\ e.reenc2 = e.reenc)
+    /\ Adv
+
 TCover ==
     /\ e.op = "cover"
     /\ C("UniverseCovered", e.n = Cardinality(Vectors(ty)))
     /\ Adv
 
-TraceNext == l <= Len(Ev(t)) /\ (TEnc \/ TDec \/ TCover)
+TraceNext == l <= Len(Ev(t)) /\ (TEnc \/ TDec \/ TForeign \/ TCover)
 Accepted == Accepting(t, l)
 =============================================================================
